@@ -93,7 +93,7 @@ prop('C07', SERVER_TOO, title='Deadlines propagate across hops without stretchin
      level_note='Codecs carrying a Duration faithfully and serde_derive\'s default handling are assumed (A-codec).',
      not_covered='context::current() inside a handler without an OpenTelemetry layer; the derived Context::deserialize with the field omitted')
 prop('C09', SERVER_TOO, title='Transport failures are contained and reported',
-     verus=['client'], native=['complete_all_bounded', 'drop_aborts_bounded', 'server_wire_bounded'], technique=TECH_V + '; bounded native stand-ins for the two functions cut to assumed contracts; server replay search (oracle: no error reported while the transport never failed; endpoint panics)',
+     verus=['client'], native=['complete_all_bounded', 'drop_aborts_bounded', 'server_wire_bounded', 'client_faults_bounded', 'server_faults_bounded'], technique=TECH_V + '; bounded native stand-ins for the two functions cut to assumed contracts; fault-injection replay searches on both ends as a source of concrete failing inputs (never counted as proved)',
      assumptions=COMMON_V + ['A-sink', 'A-oneshot', 'A-mpsc', 'A-delayqueue'],
      level_text='Proof that each transport wrapper tags a failure with its activity and that the tag survives `?` up to run(); that a failed request write removes and fails only that call and is not fatal; that start_send is never reached after a reported failure (its precondition); panic freedom of every extracted function (expect/unwrap/DelayQueue preconditions discharged).',
      level_note='shut_down_with_terminal_error is under contract (every queued caller with an open receiver is delivered the channel error; only channel errors are delivered; the transport is not touched again) with complete_all_requests cut to an ASSUMED contract (R11: impl Iterator over a draining map). Server: BaseChannel/Requests error tagging and containment are proved in unit server.',
